@@ -96,3 +96,53 @@ def stack_schedules(rng, props, n, full=False):
         steps.append({"a": "round", "dt": dt, "n": bound + 2})
         out.append({"id": "stack-%d-%s" % (i, mode), "cfg": cfg, "steps": steps})
     return out
+
+
+def twin_schedules(rng, props, n):
+    """Two clients holding tokens for ONE client id (different sockets / addresses, harness clients 1 and 3) race through the
+    handshake next to a bystander (2): both are challenged before either answers; at most one of them may end up connected, and
+    whatever the loser keeps sending must never surface under that id."""
+    out = []
+    for i in range(n):
+        dt = rng.choice([100, 250])
+        cfg = {"clients": [1, 2, 3], "alias": {"3": 1}, "twins": [[3, 1]], "max_clients": 4, "timeout_s": 2, "props": props, "allow_timeouts": True}
+        steps = []
+        tag = [1]
+
+        def relay(c, d, ops):
+            steps.append({"a": "relay", "c": c, "dir": d, "ops": ops})
+
+        def msg(c, d):
+            steps.append({"a": "send", "c": c, "dir": d, "ch": rng.choice([0, 1, 2]), "tag": tag[0], "len": rng.choice([5, 300, 1201])})
+            tag[0] += 1
+        # requests of all three, challenges back
+        for c in (1, 3, 2):
+            steps.append({"a": "cstep", "c": c, "dt": dt})
+            relay(c, "up", ["pass"])
+        steps.append({"a": "sstep", "dt": dt})
+        for c in (1, 3, 2):
+            relay(c, "down", ["pass"])
+        # responses: the twins answer in either order, optionally one of them a step later (its datagram is held)
+        first, second = rng.choice([(1, 3), (3, 1)])
+        late = rng.random() < 0.5
+        for c in (first, second, 2):
+            steps.append({"a": "cstep", "c": c, "dt": max(dt, 250)})
+            relay(c, "up", ["hold"] if (late and c == second) else ["pass"])
+        steps.append({"a": "sstep", "dt": dt})
+        if late:
+            relay(second, "up", ["pass"])
+            steps.append({"a": "sstep", "dt": dt})
+        # traffic from everybody, good rounds, the server application drains what arrived under every id
+        for t in range(rng.randint(6, 12)):
+            for c in (1, 3, 2):
+                if rng.random() < 0.7:
+                    msg(c, "cs")
+                steps.append({"a": "cstep", "c": c, "dt": dt})
+                relay(c, "up", ["pass"])
+            steps.append({"a": "sstep", "dt": dt})
+            for c in (1, 3, 2):
+                relay(c, "down", ["pass"])
+            for c in (1, 2):
+                steps.append({"a": "recv", "c": c, "dir": "cs"})
+        out.append({"id": "twin-%d" % i, "cfg": cfg, "steps": steps})
+    return out
